@@ -82,7 +82,11 @@ class LogTanh(Transform):
         outputs[mask_left] = self.alpha * -torch.log(-self.beta * inputs[mask_left])
 
         logabsdet = torch.zeros_like(inputs)
-        logabsdet[mask_middle] = torch.log(1 - outputs[mask_middle] ** 2)
+        # log(1 - tanh(x)^2) without the cancellation in 1 - tanh^2 (see Tanh.forward): with a cut
+        # point of 8 or more the naive form loses all single-precision digits and returns -inf.
+        logabsdet[mask_middle] = 2 * (
+            np.log(2.0) - inputs[mask_middle] - F.softplus(-2 * inputs[mask_middle])
+        )
         logabsdet[mask_right] = torch.log(self.alpha / inputs[mask_right])
         logabsdet[mask_left] = torch.log(-self.alpha / inputs[mask_left])
         logabsdet = torchutils.sum_except_batch(logabsdet, num_batch_dims=1)
